@@ -79,6 +79,9 @@ def main():
     for _ in range(400 if quick else 8000):
         cfg = P.gen_cfg(rng)
         scenarios.append({"cfg": cfg, "ops": [P.gen_op(rng) for _ in range(rng.choice([1, 2, 5]))]})
+    rp = P.replay_tokens()
+    if rp is not None:
+        scenarios = [P.scenario_of_line(rp)] if rp and rp[0] == "srv" else []
     outs, stats = P.run_scenarios(c, scenarios, P.monitor_c22, compare_c15_class=False)
     stats["environment_scenarios"] = len(env)
     c.cov["distribution"] = stats
